@@ -1,5 +1,5 @@
 """C11 - realign output is exactly-once and in input order under every schedule."""
-from props.realign_common import apalache_counting_proof, explore_config
+from props.realign_common import apalache_counting_proof, explore_config, real_mp_tier
 
 
 def run(ctx):
@@ -24,6 +24,20 @@ def run(ctx):
     for k, nw, ns in cfgs:
         explore_config(ctx, k, nw, ns)
     apalache_counting_proof(ctx)
+    # real multiprocessing with the timeout race forced open (workers slower than the queue timeout, slow liveness check)
+    real = []
+    for (R, B, C, delay) in ([(5, 2, 2, "0.7:0.9"), (3, 1, 3, "0.3:0.5")] if not ctx.thorough else [(5, 2, 2, "0.7:0.9"), (3, 1, 3, "0.3:0.5"), (4, 1, 2, "0.7:0.2"), (6, 2, 1, "0.7:0.9")]):
+        rc, hung, names = real_mp_tier(ctx, R, B, C, None, delay)
+        real.append({"R": R, "B": B, "cores": C, "worker_delay:alive_delay": delay, "rc": rc, "hung": hung, "written": names})
+        ctx.evaluations += 1
+        if hung:
+            ctx.violation("realmp_hang", real[-1])
+        elif rc != 0:
+            ctx.violation("realmp_fails_without_fault", real[-1])
+        elif names != [f"r{i}" for i in range(1, R + 1)]:
+            ctx.violation("realmp_output_not_exactly_once_in_order", real[-1])
+        ctx.nontrivial.add(("realmp", R, B, C, delay))
+    ctx.notes["real_multiprocessing_runs"] = real
     ctx.exhaustive = True
     ctx.assumptions += [
         "multiprocessing is replaced by the fake layer of harness/sched.py whose semantics are those modelled in Realign.tla (buffer/feeder/pipe); cross-checked by the real-multiprocessing tier in thorough mode",
